@@ -2,8 +2,8 @@
 //!
 //! Spaces: 0; all 64 x 64 one- and two-bit values; all C(64,3) three-bit values; for every population count
 //! p = 0..=64 every cyclic run of p bits, every "run with one hole / one extra bit" neighbour and the complements
-//! (a deterministic replacement for "random values of every population count"); thorough: all C(64,4) four-bit
-//! values and their complements.
+//! (a deterministic replacement for "random values of every population count"); all C(64,4) four-bit values and
+//! their complements.
 //! Oracle: popcount rule + deck order.
 use super::{confirm, sample_json, Ctx};
 use crate::engine::enumerate::par_parts;
@@ -162,7 +162,8 @@ pub fn run(ctx: &Ctx, rep: &mut Report) {
         rep.add_space("every cyclic run of p = 0..=64 bits, its complement and all its one-bit neighbours", &acc, t0, "every population count is met");
         rep.hist_named("runs:", &names, &acc.hist);
     }
-    if ctx.tier.thorough() {
+    {
+        let _ = ctx;
         let t0 = Instant::now();
         let accs = par_parts(64, |i| {
             let mut acc = Acc::new(4);
@@ -184,5 +185,5 @@ pub fn run(ctx: &Ctx, rep: &mut Report) {
     rep.sample(sample_json("try_from", "bits 52 and 0", &show(&observe(1 << 52 | 1).0)));
     rep.sample(sample_json("try_from", "bit 7 only", &show(&observe(1 << 7).0)));
     rep.rule = "distinct 64-bit values; non-trivial = values with exactly two bits set (the only ones for which success, card order and the round trip are at stake)".into();
-    rep.bound = "complete for population count <= 3 (thorough: <= 4 and >= 60); structured families for every other population count".into();
+    rep.bound = "complete for population count <= 4 and >= 60; structured families for every other population count".into();
 }
